@@ -1,11 +1,101 @@
 //go:build verif
 
 // Contracts for package capnp, read by /verif/engine (govc).  Comment-only file.
+// The spec functions below are an independent decoder written from
+// https://capnproto.org/encoding.html, not from the code they specify.
 package capnp
+
+//@ option nolockhavoc
 
 //@ spec
 //@ func mMaxSeg() M { return M(maxSegmentSize) }
+//@
+//@ // ---- pointer word fields (encoding.html, "Pointers")
+//@ func sKind(w rawPointer) int { return int(w & 3) } // 0 struct, 1 list, 2 far, 3 other
+//@ func sOff(w rawPointer) int32 { // bits 2..31, signed 30-bit word offset
+//@ 	u := uint32(w>>2) & 0x3fffffff
+//@ 	if u&0x20000000 != 0 {
+//@ 		return int32(u) - (1 << 30)
+//@ 	}
+//@ 	return int32(u)
+//@ }
+//@ func sDataWords(w rawPointer) uint16 { return uint16((w >> 32) & 0xffff) }
+//@ func sPtrWords(w rawPointer) uint16  { return uint16((w >> 48) & 0xffff) }
+//@ func sElemCode(w rawPointer) int     { return int((w >> 32) & 7) }
+//@ func sElemCount(w rawPointer) int32  { return int32((w >> 35) & 0x1fffffff) }
+//@ func sFarDouble(w rawPointer) bool   { return (w>>2)&1 == 1 }
+//@ func sFarPadWords(w rawPointer) uint32 { return uint32((w >> 3) & 0x1fffffff) }
+//@ func sFarSeg(w rawPointer) uint32    { return uint32((w >> 32) & 0xffffffff) }
+//@ func sCapIndex(w rawPointer) uint32  { return uint32((w >> 32) & 0xffffffff) }
+//@ // element size in bytes for non-composite, non-bit element codes
+//@ func sElemData(code int) Size {
+//@ 	switch code {
+//@ 	case 2:
+//@ 		return 1
+//@ 	case 3:
+//@ 		return 2
+//@ 	case 4:
+//@ 		return 4
+//@ 	case 5:
+//@ 		return 8
+//@ 	}
+//@ 	return 0
+//@ }
+//@ func sElemPtrs(code int) uint16 {
+//@ 	if code == 6 {
+//@ 		return 1
+//@ 	}
+//@ 	return 0
+//@ }
+//@ // total bytes occupied by the list a list pointer denotes (composite: including the tag word)
+//@ func sListBytes(w rawPointer) M {
+//@ 	n := M(sElemCount(w))
+//@ 	switch sElemCode(w) {
+//@ 	case 1:
+//@ 		return (n + 7) / 8
+//@ 	case 7:
+//@ 		return 8 * (n + 1)
+//@ 	}
+//@ 	return n * (M(sElemData(sElemCode(w))) + 8*M(sElemPtrs(sElemCode(w))))
+//@ }
+//@
+//@ // ---- handle invariants
+//@ // segments are at most 2^32-8 bytes (the implementation's address type is 32 bits wide) and
+//@ // belong to a message with an arena
+//@ func segOK(s *Segment) bool {
+//@ 	return s != nil && M(len(s.data)) <= mMaxSeg() && s.msg != nil && s.msg.Arena != nil
+//@ }
+//@ func szOK(sz ObjectSize) bool { return M(sz.DataSize) <= 0xffff*8 }
+//@ func szBytes(sz ObjectSize) M { return M(sz.DataSize) + 8*M(sz.PointerCount) }
+//@ func wfStruct(p Struct) bool {
+//@ 	return p.seg == nil || (segOK(p.seg) && szOK(p.size) && M(p.off)+szBytes(p.size) <= M(len(p.seg.data)))
+//@ }
+//@ func listBytes(l List) M {
+//@ 	if l.flags&isBitList != 0 {
+//@ 		return (M(l.length) + 7) / 8
+//@ 	}
+//@ 	return M(l.length) * szBytes(l.size)
+//@ }
+//@ func wfListB(l List) bool {
+//@ 	return l.seg == nil || (segOK(l.seg) && szOK(l.size) && M(l.off)+listBytes(l) <= M(len(l.seg.data)) &&
+//@ 		(l.flags&isCompositeList == 0 || l.off >= 8))
+//@ }
+//@ func wfList(l List) bool { return wfListB(l) && (l.seg == nil || l.length >= 0) }
+//@ func wfPtr(p Ptr) bool {
+//@ 	if p.seg == nil {
+//@ 		return true
+//@ 	}
+//@ 	switch p.flags.ptrType() {
+//@ 	case structPtrType:
+//@ 		return wfStruct(p.Struct())
+//@ 	case listPtrType:
+//@ 		return wfList(p.List())
+//@ 	}
+//@ 	return segOK(p.seg)
+//@ }
 //@ end
+
+// ---------------------------------------------------------------- address.go
 
 //@ func address.addSize -> r, ok
 //@   props C01 C03
@@ -17,6 +107,11 @@ package capnp
 //@   ensures ok == (0 <= M(a)+M(i)*M(sz) && M(a)+M(i)*M(sz) <= mMaxSeg())
 //@   ensures implies(ok, M(r) == M(a)+M(i)*M(sz))
 
+//@ func address.addOffset -> r
+//@   props C01 C03
+//@   requires o < 1<<19
+//@   ensures r == a+address(o)
+
 //@ func Size.times -> r, ok
 //@   props C01 C03
 //@   ensures ok == (0 <= M(sz)*M(n) && M(sz)*M(n) <= mMaxSeg())
@@ -26,3 +121,191 @@ package capnp
 //@   props C04 C05
 //@   requires M(sz) <= mMaxSeg()
 //@   ensures M(r) >= M(sz) && M(r) < M(sz)+8 && r%8 == 0
+
+//@ func ObjectSize.totalSize -> r
+//@   props C01 C03
+//@   requires szOK(sz)
+//@   ensures M(r) == szBytes(sz)
+
+//@ func ObjectSize.dataWordCount -> r
+//@   props C01 C05
+//@   requires sz.DataSize%8 == 0
+//@   ensures M(r)*8 == M(sz.DataSize)
+
+// ---------------------------------------------------------------- rawpointer.go
+
+//@ func rawPointer.pointerType -> r
+//@   props C03
+//@   ensures implies(sKind(p) == 0, r == structPointer)
+//@   ensures implies(sKind(p) == 1, r == listPointer)
+//@   ensures implies(sKind(p) == 3, r == otherPointer)
+//@   ensures implies(sKind(p) == 2 && !sFarDouble(p), r == farPointer)
+//@   ensures implies(sKind(p) == 2 && sFarDouble(p), r == doubleFarPointer)
+
+//@ func rawPointer.offset -> r
+//@   props C03
+//@   ensures int32(r) == sOff(p)
+
+//@ func rawPointer.structSize -> r
+//@   props C03
+//@   ensures M(r.DataSize) == 8*M(sDataWords(p)) && r.PointerCount == sPtrWords(p)
+
+//@ func rawPointer.listType -> r
+//@   props C03
+//@   ensures int(r) == sElemCode(p)
+
+//@ func rawPointer.numListElements -> r
+//@   props C03
+//@   ensures r == sElemCount(p) && r >= 0 && r < 1<<29
+
+//@ func rawPointer.elementSize -> r
+//@   props C01 C03
+//@   requires sElemCode(p) != 7
+//@   ensures r.DataSize == sElemData(sElemCode(p)) && r.PointerCount == sElemPtrs(sElemCode(p))
+
+//@ func rawPointer.totalListSize -> sz, ok
+//@   props C01 C03
+//@   ensures ok == (sListBytes(p) <= mMaxSeg())
+//@   ensures implies(ok, M(sz) == sListBytes(p))
+
+//@ func rawPointer.farAddress -> r
+//@   props C03
+//@   ensures M(r) == 8*M(sFarPadWords(p))
+
+//@ func rawPointer.farSegment -> r
+//@   props C03
+//@   ensures uint32(r) == sFarSeg(p)
+
+//@ func rawPointer.otherPointerType -> r
+//@   props C03
+//@   ensures r == uint32((p>>2)&0x3fffffff)
+
+//@ func rawPointer.capabilityIndex -> r
+//@   props C03
+//@   ensures uint32(r) == sCapIndex(p)
+
+//@ func pointerOffset.resolve -> r, ok
+//@   props C01 C03
+//@   ensures ok == (0 <= M(base)+8*M(off) && M(base)+8*M(off) <= mMaxSeg())
+//@   ensures implies(ok, M(r) == M(base)+8*M(off))
+
+//@ func landingPadNearPointer -> r
+//@   props C03
+//@   -- a double-far landing pad [far, tag] denotes the object `tag` describes, at the word
+//@   -- address in `far` of the target segment, i.e. a near pointer whose target is
+//@   -- 8*farPadWords(far) when resolved against base 0.
+//@   requires sKind(far) == 2 && !sFarDouble(far) && (sKind(tag) == 0 || sKind(tag) == 1)
+//@   ensures sKind(r) == sKind(tag) && r>>32 == tag>>32
+//@   ensures 8*M(sOff(r)) == 8*M(sFarPadWords(far))
+
+// ---------------------------------------------------------------- internal helpers
+
+//@ func newError -> r
+//@   props C01
+//@   modifies nothing
+//@   ensures r != nil
+
+//@ func annotater.errorf -> r
+//@   props C01 C08
+//@   modifies nothing
+//@   requires a.err != nil
+//@   ensures r != nil
+
+//@ func errorf -> r
+//@   props C01
+//@   modifies nothing
+//@   ensures r != nil
+
+// ---------------------------------------------------------------- segment.go (read side)
+
+//@ func Segment.slice -> r
+//@   inline
+//@   strict
+
+//@ func Segment.regionInBounds -> r
+//@   props C01 C03
+//@   requires s != nil
+//@   ensures implies(r, M(base)+M(sz) <= M(len(s.data)))
+//@   ensures implies(M(len(s.data)) <= mMaxSeg(), r == (M(base)+M(sz) <= M(len(s.data))))
+
+//@ func Segment.readStructPtr -> st, err
+//@   props C01 C03
+//@   requires segOK(s)
+//@   ensures implies(err == nil, st.seg == s && wfStruct(st))
+//@   ensures implies(err == nil, M(st.off) == M(base)+8*M(sOff(val)))
+//@   ensures implies(err == nil, M(st.size.DataSize) == 8*M(sDataWords(val)) && st.size.PointerCount == sPtrWords(val))
+//@   ensures implies(err == nil, st.flags == 0)
+//@   ensures implies(err != nil, st.seg == nil)
+//@   ensures (err == nil) == (0 <= M(base)+8*M(sOff(val)) &&
+//@           M(base)+8*M(sOff(val))+8*M(sDataWords(val))+8*M(sPtrWords(val)) <= M(len(s.data)))
+
+//@ func Segment.readListPtr -> l, err
+//@   props C01 C03
+//@   requires segOK(s)
+//@   ensures implies(err == nil, l.seg == s)
+//@   ensures wfcomp: implies(err == nil && sElemCode(val) == 7, wfListB(l))
+//@   ensures wfbit: implies(err == nil && sElemCode(val) == 1, wfListB(l))
+//@   ensures wfprim: implies(err == nil && sElemCode(val) != 1 && sElemCode(val) != 7, wfListB(l))
+//@   ensures nonneg: implies(err == nil, l.length >= 0)
+//@   ensures implies(err != nil, l.seg == nil)
+//@   -- non-composite lists: element code, count and position as the pointer word says
+//@   ensures implies(err == nil && sElemCode(val) != 7, M(l.off) == M(base)+8*M(sOff(val)) && l.length == sElemCount(val))
+//@   ensures implies(err == nil && sElemCode(val) != 7 && sElemCode(val) != 1,
+//@           l.flags == 0 && l.size.DataSize == sElemData(sElemCode(val)) && l.size.PointerCount == sElemPtrs(sElemCode(val)))
+//@   ensures implies(err == nil && sElemCode(val) == 1, l.flags == isBitList)
+//@   -- composite lists: content starts one word after the tag; count and element size come from the tag
+//@   ensures implies(err == nil && sElemCode(val) == 7, l.flags == isCompositeList && M(l.off) == M(base)+8*M(sOff(val))+8)
+//@   old tag rawPointer = rawPointer(LE64(s.data, int(M(base)+8*M(sOff(val)))))
+//@   ensures implies(err == nil && sElemCode(val) == 7, sKind(tag) == 0)
+//@   ensures implies(err == nil && sElemCode(val) == 7, l.length == sOff(tag))
+//@   ensures implies(err == nil && sElemCode(val) == 7, M(l.size.DataSize) == 8*M(sDataWords(tag)) && l.size.PointerCount == sPtrWords(tag))
+
+//@ func Segment.lookupSegment -> r, err
+//@   props C01 C03
+//@   requires segOK(s)
+//@   old sid SegmentID = s.id
+//@   modifies Message.segs m:map[capnproto.org/go/capnp/v3.SegmentID]*capnproto.org/go/capnp/v3.Segment
+//@   ensures implies(err == nil, r != nil)
+//@   ensures implies(err != nil, r == nil)
+//@   ensures implies(sid == id, r == s && err == nil)
+//@   -- every segment of a message obeys the handle invariant and belongs to the message (wfMsg, DESIGN 4)
+//@   assumes implies(err == nil, segOK(r) && r.msg == s.msg)
+
+//@ func Segment.resolveFarPointer -> dst, base, resolved, err
+//@   props C01 C03
+//@   requires segOK(s) && M(paddr)+8 <= M(len(s.data))
+//@   old val rawPointer = rawPointer(LE64(s.data, int(paddr)))
+//@   modifies Message.segs m:map[capnproto.org/go/capnp/v3.SegmentID]*capnproto.org/go/capnp/v3.Segment
+//@   ensures implies(err == nil, segOK(dst) && dst.msg == s.msg)
+//@   ensures implies(err != nil, dst == nil)
+//@   -- near pointer: resolved in place, base is the end of the pointer word
+//@   ensures implies(sKind(val) != 2, err == nil && dst == s && M(base) == M(paddr)+8 && resolved == val)
+//@   -- far pointer: landing pad is one word at 8*pad in the target segment; it is the pointer, base its end
+//@   ensures implies(err == nil && sKind(val) == 2 && !sFarDouble(val),
+//@           M(base) == 8*M(sFarPadWords(val))+8 && M(base) <= M(len(dst.data)) &&
+//@           resolved == rawPointer(LE64(dst.data, int(base)-8)))
+//@   -- double-far: result is a struct/list pointer resolved against base 0 of the final segment
+//@   ensures implies(err == nil && sKind(val) == 2 && sFarDouble(val), base == 0 && (sKind(resolved) == 0 || sKind(resolved) == 1))
+
+//@ func Message.canRead -> ok
+//@   props C02
+//@   requires m != nil
+//@   modifies Message.rlimit Message.rlimitInit
+//@   loop 0 "for"
+
+//@ func Segment.readPtr -> ptr, err
+//@   props C01 C02 C03
+//@   requires segOK(s) && M(paddr)+8 <= M(len(s.data))
+//@   modifies Message.rlimit Message.rlimitInit Message.segs m:map[capnproto.org/go/capnp/v3.SegmentID]*capnproto.org/go/capnp/v3.Segment
+//@   ensures implies(err != nil, ptr.seg == nil)
+//@   ensures implies(err == nil, wfPtr(ptr))
+//@   ensures implies(ptr.seg != nil, ptr.seg.msg == s.msg)
+//@   ensures [C02] depth: implies(ptr.seg != nil && ptr.flags.ptrType() != interfacePtrType, depthLimit >= 1 && ptr.depthLimit == depthLimit-1)
+
+// ---------------------------------------------------------------- Arena (assumed interface contracts)
+
+//@ iface Arena.NumSegments -> n
+//@   modifies nothing
+
+//@ iface Arena.Data -> data, err
+//@   modifies nothing
